@@ -244,6 +244,13 @@ func observe(c *Case, r *mon.Rec, t target, fields modbus.Fields) {
 		usage = int(uint64(c.Seed) % 4)
 	}
 	b := build(fields, usage, uint64(c.Seed)>>3)
+	if c.Kind == "random" && (uint64(c.Seed)>>5)%3 == 0 {
+		// the same builder has already been asked for another kind of requests (an application polling coils and
+		// registers builds both from one builder): what it returns now does not depend on that
+		other := Targets[(c.Target+1+int(uint64(c.Seed)>>7)%(len(Targets)-1))%len(Targets)]
+		mon.Catch(func() { _, _ = other.call(b) })
+		r.Cover("usage", "second-build-on-the-same-builder")
+	}
 	var reqs []modbus.BuilderRequest
 	var err error
 	if p, txt := mon.Catch(func() { reqs, err = t.call(b) }); p {
